@@ -18,6 +18,8 @@ impl<'a, NumericTypes: EvalexprNumericTypes> Iterator for NodeIter<'a, NumericTy
     type Item = &'a Node<NumericTypes>;
 
     fn next(&mut self) -> Option<Self::Item> {
+        #[cfg(feature = "verif-hooks")]
+        crate::verif::point(crate::verif::Site::IterNext);
         loop {
             let mut result = None;
 
@@ -58,6 +60,8 @@ impl<'a, NumericTypes: EvalexprNumericTypes> Iterator for OperatorIterMut<'a, Nu
     type Item = &'a mut Operator<NumericTypes>;
 
     fn next(&mut self) -> Option<Self::Item> {
+        #[cfg(feature = "verif-hooks")]
+        crate::verif::point(crate::verif::Site::IterMutNext);
         loop {
             let mut result = None;
 
